@@ -69,8 +69,10 @@ fn gen_project(rng: &mut Rng, fenced: &BTreeSet<String>, n: usize) -> (Vec<SrcFi
     (files, bystanders)
 }
 
-fn fault_line(rng: &mut Rng, tag: &str) -> (String, &'static str) {
-    match rng.below(3) {
+fn fault_line(rng: &mut Rng, tag: &str, fenced: &BTreeSet<String>) -> (String, &'static str) {
+    let n = if fenced.contains("context_stage_type_error") { 3 } else { 4 };
+    match rng.below(n) {
+        3 => (format!("type {}Bad: {{Int, Str}}\n", tag.to_uppercase()), "context"),
         0 => (format!("def {tag}bad := $\n"), "lexical"),
         1 => (format!("def {tag}bad: Int :=\n"), "syntax"),
         _ => (format!("def {tag}bad: Int := \"a\"\n"), "type"),
@@ -394,7 +396,7 @@ pub fn gen_and_run(seed: u64, index: u64, scratch: &str, cfg: &GenCfg, fenced: &
                 if cur_files.is_empty() {
                     continue;
                 }
-                let (line, kind) = fault_line(&mut rng, &tag);
+                let (line, kind) = fault_line(&mut rng, &tag, fenced);
                 let mut fv = cur_files.clone();
                 fv[k].text = format!("{}{}", fv[k].text, line);
                 faulty = Some(Faulty { path: fv[k].path.clone(), line: line.clone() });
@@ -833,9 +835,29 @@ pub fn run_check(tier_name: &str, seed: u64, verif_dir: &str) -> i32 {
     }
     stats.merge(&enum_stats);
 
+    // violations that are a listed open finding (by signature) are attributed, not reported
+    let mut sig_hits: BTreeMap<String, usize> = BTreeMap::new();
+    all.retain(|(_, _, v)| {
+        for e in entries.iter().filter(|e| e.open && e.property == "C13") {
+            if e.sig_matches(&v.class, &v.fired, &v.outcome) {
+                *sig_hits.entry(e.id.clone()).or_insert(0) += 1;
+                return false;
+            }
+        }
+        true
+    });
+    for (id, n) in &sig_hits {
+        if !known_reproduced.contains(id) {
+            if let Some(e) = entries.iter().find(|e| &e.id == id) {
+                println!("KNOWN-FINDING: property=C13 {} {} [{} occurrences in this run]", e.id, e.what, n);
+                known_reproduced.push(id.clone());
+            }
+        }
+    }
     let n_viol = all.len();
     let mut replay_path = String::new();
-    if let Some((_, sc, v)) = all.iter().min_by_key(|(i, _, v)| (*i, v.step)).cloned() {
+    let pick = std::env::var("VERIF_PICK").unwrap_or_default();
+    if let Some((_, sc, v)) = all.iter().filter(|(_, _, v)| pick.is_empty() || v.detail.contains(&pick) || v.class.contains(&pick)).min_by_key(|(i, _, v)| (*i, v.step)).cloned() {
         if v.class == "harness" {
             println!("HARNESS-ERROR {}", v.detail);
             let _ = std::fs::remove_dir_all(&scratch);
@@ -927,6 +949,7 @@ pub fn run_check(tier_name: &str, seed: u64, verif_dir: &str) -> i32 {
             "clock_calls": stats.clock_calls, "pid_calls": stats.pid_calls, "cwd_calls": stats.cwd_calls,
             "runs_per_hour": (stats.steps as f64 / wall * 3600.0) as u64,
             "known_findings_reproduced": known_reproduced,
+            "known_finding_occurrences": sig_hits,
             "fenced_features": fenced_all.iter().collect::<Vec<_>>(),
             "components_real": ["mamba::transpile_dir, io.rs, lexer/parser/context/checker/generator", "glob, pathdiff, std::fs", "kernel VFS on a private tmpfs tree (deterministic store)", "src/main.rs (fault-free CLI layer, shipped binary with seeded getrandom preload)"],
             "components_simulated": ["outcome/length/errno of open, read, write, mkdir, opendir, readdir, statx", "disk capacity", "process crash at an intercepted call (real process death, tree survives)", "directory enumeration order", "getrandom (hash keys)", "clock, pid"],
@@ -945,10 +968,19 @@ pub fn run_check(tier_name: &str, seed: u64, verif_dir: &str) -> i32 {
     );
     if n_viol > 0 {
         let mut classes: BTreeMap<String, usize> = BTreeMap::new();
-        for (_, _, v) in &all {
-            *classes.entry(v.class.clone()).or_insert(0) += 1;
+        for (_, sc, v) in &all {
+            let fault = match sc.history.get(v.step) {
+                Some(Op::Transpile { plan, crash_at, disk_budget, .. }) => format!(
+                    "{}{}{}",
+                    plan.iter().filter(|p| !is_benign(p)).map(|p| format!("{}:{}", p.call, p.kind)).collect::<Vec<_>>().join("+"),
+                    if crash_at.is_some() { "crash" } else { "" },
+                    if disk_budget.is_some() { "disk" } else { "" }
+                ),
+                _ => String::new(),
+            };
+            *classes.entry(format!("{} [{}] {}", v.class, fault, v.detail.split(':').next().unwrap_or(""))).or_insert(0) += 1;
         }
-        println!("violation classes: {:?}", classes);
+        println!("violation classes: {:#?}", classes);
     }
     let _ = std::fs::remove_dir_all(&scratch);
     let _ = corpus::repo_dir();
